@@ -29,7 +29,8 @@ FuncAtoms   == { Atom("func", <<"S","U","M","(">>, <<SimpleRef>>, <<")">>, {}),
 StrAtoms    == { Atom("str", <<"\"","x","\"">>, <<>>, <<>>, {}),
                  Atom("str", <<"\"","A","3","\"">>, <<>>, <<>>, {}),
                  Atom("str", <<"\"","s","a","y"," ","\"","\"","A","1","\"","\"","\"">>, <<>>, <<>>, {}),
-                 Atom("str", <<"\"","e'","\"">>, <<>>, <<>>, {}) }                \* e' stands for U+00E9
+                 Atom("str", <<"\"","e'","\"">>, <<>>, <<>>, {}),               \* e' stands for U+00E9
+                 Atom("str", <<"\"","i","t","'","s","\"">>, <<>>, <<>>, {}) }     \* an apostrophe inside a string literal
 NumAtoms    == { Atom("num", <<"1","0">>, <<>>, <<>>, {}), Atom("num", <<"1",".","5">>, <<>>, <<>>, {}),
                  Atom("num", <<"1","E","5">>, <<>>, <<>>, {"SciNumber"}) }
 NameAtoms   == { Atom("name", <<"R","a","t","e">>, <<>>, <<>>, {}),
